@@ -18,7 +18,7 @@ Proof. reflexivity. Qed.
 Lemma digits_no_lb : forall s, forallb is_digit s = true -> no_lb s = true.
 Proof.
   intros s H. unfold no_lb. apply (forallb_impl is_digit); [|exact H].
-  intros x Hx. unfold is_digit in Hx. unfold is_linebreak. lia.
+  intros x Hx. unfold is_digit in Hx. lia.
 Qed.
 
 Lemma no_lb_app : forall a b, no_lb (a ++ b) = no_lb a && no_lb b.
@@ -134,7 +134,7 @@ Proof.
   rewrite !no_lb_app. cbn [no_lb forallb].
   fold (no_lb (padded (mc_pad0 c) (mc_n0 c))). fold (no_lb (padded (mc_pad1 c) (mc_n1 c))).
   rewrite !digits_no_lb by (apply padded_digits; lia).
-  change (is_linebreak 123) with false. change (is_linebreak 125) with false. cbn [negb andb].
+  change ((123 =? 10) || (123 =? 13)) with false. change ((125 =? 10) || (125 =? 13)) with false. cbn [negb andb].
   fold (no_lb (join [124] (mc_lines c))).
   induction (mc_lines c) as [|l ls IH]; [reflexivity|].
   cbn [forallb] in Hl. apply andb_true_iff in Hl. destruct Hl as [Hl1 Hl2].
@@ -168,11 +168,11 @@ Proof.
     { unfold fps_render. unfold fps_dom in Hf.
       apply andb_true_iff in Hf. destruct Hf as [Hf _]. apply andb_true_iff in Hf. destruct Hf as [Hip Hfr].
       change (brace (lit "0")) with [123; 48; 125]. cbn [app no_lb forallb].
-      change (is_linebreak 123) with false. change (is_linebreak 48) with false. change (is_linebreak 125) with false.
+      change ((123 =? 10) || (123 =? 13)) with false. change ((48 =? 10) || (48 =? 13)) with false. change ((125 =? 10) || (125 =? 13)) with false.
       cbn [negb andb]. fold (no_lb (padded (fp_pad l) (fp_ip l) ++ match fp_fr l with [] => [] | _ :: _ => 46 :: digits_str (fp_fr l) end)).
       rewrite no_lb_app. rewrite digits_no_lb by (apply padded_digits; lia).
       destruct (fp_fr l) as [|d ds] eqn:EF; [reflexivity|].
-      cbn [no_lb forallb]. change (is_linebreak 46) with false. cbn [negb andb].
+      cbn [no_lb forallb]. change ((46 =? 10) || (46 =? 13)) with false. cbn [negb andb].
       fold (no_lb (digits_str (d :: ds))). apply digits_no_lb. apply digits_str_digits. exact Hfr. }
     assert (ML : mdvd_line (brace (lit "0") ++ brace (lit "0") ++ fps_render l) = Some (lit "0", lit "0", fps_render l))
       by (apply mdvd_line_render; first [discriminate|reflexivity]).
@@ -555,7 +555,7 @@ Proof.
   rewrite digits_no_lb by (apply dec_nonneg_digits; lia).
   assert (ST : forall t, srt_stamp_dom t = true -> no_lb (srt_render_stamp t) = true).
   { intros t Ht. unfold no_lb. apply (forallb_impl srt_char); [|apply srt_render_chars; exact Ht].
-    intros x Hx. unfold srt_char, is_digit in Hx. unfold is_linebreak. lia. }
+    intros x Hx. unfold srt_char, is_digit in Hx. lia. }
   unfold srt_timing. rewrite !no_lb_app. rewrite (ST _ H0), (ST _ H1).
   change (no_lb arrow) with true. cbn [andb].
   rewrite forallb_app. apply andb_true_iff. split.
@@ -759,7 +759,7 @@ Lemma blank_run_no_lb : forall w, blank_run w = true -> no_lb w = true.
 Proof.
   intros w H. unfold blank_run in H. destruct w as [|c r]; [discriminate|].
   unfold no_lb. apply (forallb_impl (fun x => (x =? 32) || (x =? 9))); [|exact H].
-  intros x Hx. unfold is_linebreak. lia.
+  intros x Hx. lia.
 Qed.
 
 Lemma vtt_cue_lines_no_lb : forall c, vtt_cue_dom c = true -> forallb no_lb (vtt_cue_lines c) = true.
@@ -778,12 +778,12 @@ Proof.
   - cbn [forallb].
     assert (ST : forall t, vtt_stamp_dom t = true -> no_lb (vtt_render_stamp t) = true).
     { intros t Ht. unfold no_lb. apply (forallb_impl stamp_char); [|apply vtt_render_chars; exact Ht].
-      intros x Hx. unfold stamp_char in Hx. unfold is_linebreak. lia. }
+      intros x Hx. unfold stamp_char in Hx. lia. }
     unfold vtt_timing. rewrite !no_lb_app. rewrite (ST _ H0), (ST _ H1).
     rewrite (blank_run_no_lb _ W1), (blank_run_no_lb _ W2). change (no_lb (lit "-->")) with true. cbn [andb].
     assert (SS : no_lb (match vc_settings c with Some s => 32 :: s | None => [] end) = true).
     { destruct (vc_settings c) as [s|]; [|reflexivity]. apply andb_true_iff in Hset. destruct Hset as [Hn _].
-      cbn [no_lb forallb]. change (is_linebreak 32) with false. cbn [negb andb]. exact Hn. }
+      cbn [no_lb forallb]. change ((32 =? 10) || (32 =? 13)) with false. cbn [negb andb]. exact Hn. }
     apply andb_true_iff. split; [exact SS|]. rewrite forallb_app. apply andb_true_iff. split.
     + apply forallb_forall. intros l Hin. rewrite forallb_forall in Hl. specialize (Hl l Hin).
       apply andb_true_iff in Hl. destruct Hl as [Hok _]. unfold text_line_ok in Hok.
